@@ -1020,6 +1020,8 @@ def extract(workdir):
     facts["factories"] = factories(impl)
     facts["accessor_names"] = accessor_names(impl)
     facts["iface_shapes"] = iface_shapes(impl)
+    import printer_facts
+    facts["printer"] = printer_facts.extract(asts["io"].objs)
     facts["raw_derefs"] = raw_derefs(impl)
     facts["seq_gets"] = seq_gets(impl)
     facts["type_bodies"] = type_bodies(impl)
